@@ -27,7 +27,11 @@ class NotInferred(Exception):
 
 
 class IllTyped(Exception):
-    """the text is not well-typed by the engine's rules"""
+    """the text is not well-typed by the engine's rules; `tag` names the rule (part of the finding class)"""
+
+    def __init__(self, msg, tag='value-ir'):
+        super().__init__(msg)
+        self.tag = tag
 
 
 # ---- parsable type strings ------------------------------------------------------------------------------
@@ -241,12 +245,12 @@ def names_list(x):
     return [irsem.unescape_id(a) for a in x]
 
 
-def infer(t, env, aenv=None):
-    """env: eval scope; aenv: the aggregation / scan scope (None when the node is not inside one)"""
+def infer(t, env, aenv=None, senv=None):
+    """env: eval scope; aenv / senv: the aggregation / scan scope (None when the node is not inside one)"""
     if not isinstance(t, list) or not t or not isinstance(t[0], str):
         raise NotInferred(f'node {t!r}')
     k, a = t[0], t[1:]
-    I = lambda x, e=env: infer(x, e, aenv)  # noqa: E731
+    I = lambda x, e=env: infer(x, e, aenv, senv)  # noqa: E731
     if k == 'I32':
         return 'Int32'
     if k == 'I64':
@@ -278,8 +282,8 @@ def infer(t, env, aenv=None):
         for (scope, n), v in zip(binds, rest):
             if scope != 'eval':
                 raise NotInferred('agg Let')
-            e[n] = infer(v, e)
-        return infer(rest[-1], e)
+            e[n] = infer(v, e, aenv, senv)
+        return infer(rest[-1], e, aenv, senv)
     if k == 'If':
         c, x, y = I(a[0]), I(a[1]), I(a[2])
         if c != 'Boolean' or x != y:
@@ -369,7 +373,7 @@ def infer(t, env, aenv=None):
         st = I(a[1])
         e = dict(env)
         e[n] = elt(st, k)
-        bt = infer(a[2], e)
+        bt = infer(a[2], e, aenv, senv)
         if k == 'StreamMap':
             return ('Stream', bt)
         if k == 'StreamFilter':
@@ -383,7 +387,7 @@ def infer(t, env, aenv=None):
         e = dict(env)
         e[acc] = z
         e[val] = elt(st, 'StreamFold')
-        bt = infer(a[4], e)
+        bt = infer(a[4], e, aenv, senv)
         if bt != z:
             raise IllTyped(f'StreamFold: zero {show(z)} but body {show(bt)}')
         return z
@@ -391,13 +395,14 @@ def infer(t, env, aenv=None):
         return infer_table(a[0])['glob']
     if k in ('ApplyAggOp', 'ApplyScanOp'):
         # (ApplyAggOp op (init args) (seq args)): seq args live in the aggregation scope
-        if aenv is None:
-            raise IllTyped(f'{k} outside an aggregation scope')
+        scope = aenv if k == 'ApplyAggOp' else senv
+        if scope is None:
+            raise IllTyped(f'{k} outside an aggregation / scan scope', 'agg-outside-scope')
         if len(a) != 3 or not isinstance(a[1], list) or not isinstance(a[2], list):
             raise NotInferred(f'{k} layout')
         for x in a[1]:
-            infer(x, env, aenv)
-        seq = [infer(x, aenv, None) for x in a[2]]
+            infer(x, env, aenv, senv)
+        seq = [infer(x, scope, None, None) for x in a[2]]
         if a[0] == 'Collect' and len(seq) == 1:
             return ('Array', seq[0])
         if a[0] == 'Count' and not seq:
@@ -421,7 +426,7 @@ def infer_table(t):
         return {'row': ('Struct', (('idx', 'Int32'),)), 'glob': ('Struct', ()), 'key': ['idx']}
     if k == 'TableMapRows':
         c = infer_table(a[0])
-        rt = infer(a[1], {'row': c['row'], 'global': c['glob']})
+        rt = infer(a[1], {'row': c['row'], 'global': c['glob']}, None, {'row': c['row'], 'global': c['glob']})
         fs = dict(fields(rt, 'TableMapRows'))
         if any(kf not in fs or fs[kf] != dict(c['row'][1])[kf] for kf in c['key']):
             raise IllTyped('TableMapRows changes a key field')
@@ -530,7 +535,8 @@ def _check_join_keys(l, r, what):
     lk = [dict(l['row'][1])[x] for x in l['key']]
     rk = [dict(r['row'][1])[x] for x in r['key']]
     if len(rk) > len(lk) or lk[:len(rk)] != rk:
-        raise IllTyped(f'{what}: right key {[show(x) for x in rk]} is not a prefix of left key {[show(x) for x in lk]}')
+        raise IllTyped(f'{what}: right key {[show(x) for x in rk]} is not a prefix of left key {[show(x) for x in lk]}',
+                       'left-join-right-key-not-prefix')
 
 
 TABLE_SRC = 'hail/hail/src/is/hail/expr/ir/TableIR.scala'
@@ -592,7 +598,7 @@ def infer_matrix(t):
     if k == 'MatrixMapRows':
         c = infer_matrix(a[0])
         scope = {'global': c['glob'], 'va': c['row']}
-        r = infer(a[1], scope, {'global': c['glob'], 'va': c['row'], 'sa': c['col'], 'g': c['entry']})
+        r = infer(a[1], scope, {'global': c['glob'], 'va': c['row'], 'sa': c['col'], 'g': c['entry']}, scope)
         fs = dict(fields(r, k))
         if any(x not in fs or fs[x] != dict(c['row'][1])[x] for x in c['rkey']):
             raise IllTyped('MatrixMapRows changes a row key field')
@@ -600,7 +606,7 @@ def infer_matrix(t):
     if k == 'MatrixMapCols':
         c = infer_matrix(a[1])
         scope = {'global': c['glob'], 'sa': c['col']}
-        r = infer(a[2], scope, scope if _has_scan(a[2]) else {'global': c['glob'], 'va': c['row'], 'sa': c['col'], 'g': c['entry']})
+        r = infer(a[2], scope, {'global': c['glob'], 'va': c['row'], 'sa': c['col'], 'g': c['entry']}, scope)
         ck = c['ckey'] if a[0] == 'None' else [_json.loads(x) if x.startswith('"') else irsem.unescape_id(x) for x in a[0]]
         if any(x not in dict(fields(r, k)) for x in ck):
             raise IllTyped('MatrixMapCols: unknown col key field')
@@ -642,7 +648,9 @@ def infer_matrix(t):
         # TypeCheck.scala: (!product && table key isPrefixOf row key) || (one interval key over the first row key type)
         interval = len(rk) == 1 and bool(lk) and isinstance(rk[0], tuple) and rk[0][0] == 'Interval' and rk[0][1] == lk[0]
         if not interval and (product or len(rk) > len(lk) or lk[:len(rk)] != rk):
-            raise IllTyped(f'{k}: table key {[show(x) for x in rk]} does not match row key {[show(x) for x in lk]}')
+            raise IllTyped(f'{k}: table key {[show(x) for x in rk]} does not match row key {[show(x) for x in lk]} '
+                           f'(engine TypeCheck: (!product && key isPrefixOf rowKey) || single interval key)',
+                           'annotate-rows-table-key-not-prefix-nor-single-interval')
         vt = _value_type(tb)
         if product and rule['product_array']:
             vt = ('Array', vt)
@@ -685,7 +693,7 @@ def text_check(obj, env):
             STATS['not_inferred_nodes'][str(n)] = STATS['not_inferred_nodes'].get(str(n), 0) + 1
             return
         except IllTyped as e:
-            raise Violation('ir-text-ill-typed', f'{e}: {text[:600]}')
+            raise Violation('ir-text-ill-typed:' + e.tag, f'{e}: {text[:600]}')
         STATS['table_inferred'] += 1
         STATS['join_nodes_inferred'] += len(_JOIN_RE.findall(text))
         front = (of_hail(obj.row.dtype), of_hail(obj.globals.dtype), list(obj.key))
@@ -703,7 +711,7 @@ def text_check(obj, env):
             STATS['not_inferred_nodes'][str(n)] = STATS['not_inferred_nodes'].get(str(n), 0) + 1
             return
         except IllTyped as e:
-            raise Violation('ir-text-ill-typed', f'{e}: {text[:900]}')
+            raise Violation('ir-text-ill-typed:' + e.tag, f'{e}: {text[:900]}')
         STATS['matrix_inferred'] += 1
         STATS['join_nodes_inferred'] += len(_JOIN_RE.findall(text))
         front = {'row': of_hail(obj.row.dtype), 'col': of_hail(obj.col.dtype), 'entry': of_hail(obj.entry.dtype),
@@ -723,7 +731,7 @@ def text_check(obj, env):
         STATS['not_inferred_nodes'][str(n)] = STATS['not_inferred_nodes'].get(str(n), 0) + 1
         return
     except IllTyped as ex:
-        raise Violation('ir-text-ill-typed', f'{ex}: {text[:600]}')
+        raise Violation('ir-text-ill-typed:' + ex.tag, f'{ex}: {text[:600]}')
     STATS['expr_inferred'] += 1
     if it != of_hail(obj.dtype):
         raise Violation('dtype-vs-ir-text', f'front end says {obj.dtype._parsable_string()} but the IR text implies {show(it)}: '
